@@ -22,6 +22,7 @@ LEVEL_TEXT = (
     "callback only while running, test-and-set of stop flags under the lock, check-then-act (a stop flag written under a lock and "
     "tested outside it must not be the only guard of a spawn), must-effects of stop(), the watcher's stop re-check before its "
     "callback, drop/wait options dominating the spawn."
+    " Also: debounce quiescence (the last wait before the callback is a timed wait on the interval that timed out), a batch callback in flight excludes stop() (or the spawn is re-validated under the lock), the watcher reports exactly the child's exit, per-method contracts of the auto-restart trick (restart sequencing, stop kills the child, kill_process), the shell trick's running predicate as a truth table."
 )
 
 SPAWN = re.compile(r"subprocess\.Popen$|\.start$")
